@@ -310,8 +310,12 @@ class BaseEvent(BaseModel, Generic[T_EventResultType]):
                             try:
                                 if bus.event_queue.qsize() > 0:
                                     event = bus.event_queue.get_nowait()
-                                    await bus.process_event(event)
-                                    bus.event_queue.task_done()
+                                    try:
+                                        await bus.process_event(event)
+                                    finally:
+                                        # also when this handler is cancelled (timeout) while processing the event inline:
+                                        # the queue slot must not stay "unfinished" forever, or wait_until_idle() hangs
+                                        bus.event_queue.task_done()
                                     processed_any = True
                                     # Check if the event we're waiting for is now complete
                                     if self.event_completed_signal.is_set():
@@ -748,6 +752,10 @@ class BaseEvent(BaseModel, Generic[T_EventResultType]):
                     # print('CANCELLING CHILD HANDLER', result, 'due to', error)
                     result.update(error=error)
             child_event.event_cancel_pending_child_processing(error)
+            # a child whose processing was interrupted by this timeout is finished by nobody else:
+            # once none of its results is pending any more, let it (and its waiters) complete
+            if child_event.event_results:
+                child_event.event_mark_complete_if_all_handlers_completed()
 
     def event_log_safe_summary(self) -> dict[str, Any]:
         """only event metadata without contents, avoid potentially sensitive event contents in logs"""
